@@ -343,9 +343,13 @@ fn set_money(rng: &mut StdRng, row: &mut Row, profile: Profile) {
                 // commission in another currency
                 if rng.gen_bool(0.5) {
                     row.ccur = "CAD".into();
-                } else {
+                } else if rng.gen_bool(0.5) {
                     row.ccur = "EUR".into();
                     row.rc = num(dec(rng.gen_range(13000..16000), 4));
+                } else {
+                    // the trade's own currency, at a rate of its own
+                    row.ccur = "USD".into();
+                    row.rc = num(dec(rng.gen_range(11000..14500), 4));
                 }
             }
         }
